@@ -249,7 +249,8 @@ GEOMS = ['par2d/default', 'par2d/generic', 'par2d/rotated-default-axis', 'par2d/
 
 
 def configs(tier, seed):
-    out = []
+    out = [('entry-by-entry/flying-focal-spot-and-shapes', dict(kind='entrywise-facts', geom='fan+cone')),
+           ('parallel3d/non-orthogonal-detector-axes', dict(kind='skew-facts', geom='par3d'))]
     for g in GEOMS:
         out.append(('%s/relations' % g, dict(kind='relations', geom=g)))
         out.append(('%s/vectorised' % g, dict(kind='vectorised', geom=g, _settings={'skip_undefined': True})))
@@ -628,8 +629,95 @@ def factory_case(ctx, which, vol, ratio):
                 ctx.le('%s%d/axis%d/inside-lower' % (kind_, ci, k), dmin[k] * den, num, slack=1e-9)
 
 
+def _entrywise_facts(ctx):
+    """Vectorised evaluation = entry-by-entry single evaluation, for angle arrays that are strided, reversed, unsorted
+    or of length 1, with angle-dependent (flying focal spot) source shifts; documented output shapes (concrete
+    facts)."""
+    from symnp import proxy
+    from odl.tomo.util.source_detector_shifts import flying_focal_spot
+    was, proxy.STATE.armed = proxy.STATE.armed, False
+    try:
+        apart = odl.uniform_partition(0, 2 * np.pi, 8)
+        geoms = []
+        sh2 = np.array([[0.0, 0.125], [0.0, -0.25], [0.0625, 0.0]])
+        geoms.append(('fan', odl.tomo.FanBeamGeometry(
+            apart, odl.uniform_partition(-1, 1, 5), src_radius=2, det_radius=3,
+            src_shift_func=lambda a: flying_focal_spot(a, apart, sh2)), 0.25))
+        sh3 = np.array([[0.0, 0.125, 0.0], [0.0, -0.25, 0.0625], [0.03125, 0.0, -0.125]])
+        geoms.append(('cone', odl.tomo.ConeBeamGeometry(
+            apart, odl.uniform_partition([-1, -1], [1, 1], (5, 4)), src_radius=2, det_radius=3,
+            src_shift_func=lambda a: flying_focal_spot(a, apart, sh3)), [0.25, -0.5]))
+        geoms.append(('fan-plain', odl.tomo.FanBeamGeometry(apart, odl.uniform_partition(-1, 1, 5), src_radius=2,
+                                                             det_radius=3), 0.25))
+        geoms.append(('par2d', odl.tomo.Parallel2dGeometry(apart, odl.uniform_partition(-1, 1, 5)), 0.25))
+        geoms.append(('par3d', odl.tomo.Parallel3dAxisGeometry(apart, odl.uniform_partition([-1, -1], [1, 1], (5, 4))),
+                      [0.25, -0.5]))
+        ang = apart.grid.coord_vectors[0]
+        sels = {'strided': ang[::2], 'reversed': ang[::-1], 'unsorted': ang[[5, 1, 6, 2]], 'tail': ang[3:],
+                'length-1': ang[2:3], 'all': ang}
+        for gname, g, dp in geoms:
+            nd = g.ndim
+            for sname, a in sorted(sels.items()):
+                for fname in ('src_position', 'det_refpoint', 'rotation_matrix'):
+                    f = getattr(g, fname, None)
+                    if f is None:
+                        continue
+                    vec = f(a)
+                    single = np.array([f(float(t)) for t in a])
+                    ctx.fact('%s/%s/%s/entry-by-entry' % (gname, fname, sname),
+                             vec.shape == single.shape and np.allclose(vec, single),
+                             'shape %s vs %s, max diff %s' % (vec.shape, single.shape,
+                                                              np.abs(vec - single).max() if vec.shape == single.shape else '-'))
+                for fname in ('det_point_position', 'det_to_src'):
+                    f = getattr(g, fname)
+                    vec = f(a, dp)
+                    single = np.array([f(float(t), dp) for t in a])
+                    ctx.fact('%s/%s/%s/entry-by-entry' % (gname, fname, sname),
+                             vec.shape == single.shape and np.allclose(vec, single),
+                             'shape %s vs %s' % (vec.shape, single.shape))
+                    ctx.fact('%s/%s/%s/documented-shape' % (gname, fname, sname), vec.shape == (len(a), nd),
+                             'shape %s for %d angles' % (vec.shape, len(a)))
+    finally:
+        proxy.STATE.armed = was
+
+
+def _skew_facts(ctx):
+    """Parallel 3-d geometries whose detector axes are linearly independent but not orthogonal: the ray direction is
+    a unit vector orthogonal to both (rotated) detector axes (concrete facts)."""
+    from symnp import proxy
+    was, proxy.STATE.armed = proxy.STATE.armed, False
+    try:
+        apart = odl.uniform_partition(0, np.pi, 4)
+        dpart = odl.uniform_partition([-1, -1], [1, 1], (3, 2))
+        for nm, axes in (('skew', ((1, 0, 0), (1, 0, 1))), ('skew2', ((0, 1, 0), (0, 1, 2))),
+                         ('orthogonal', ((1, 0, 0), (0, 0, 1)))):
+            for cname, mk in (('axis', lambda ax: odl.tomo.Parallel3dAxisGeometry(apart, dpart, det_axes_init=ax)),
+                              ('euler', lambda ax: odl.tomo.Parallel3dEulerGeometry(
+                                  odl.uniform_partition([0, 0], [np.pi, np.pi], (3, 2)), dpart, det_axes_init=ax))):
+                try:
+                    g = mk(axes)
+                except ValueError:
+                    ctx.fact('%s/%s/refused' % (cname, nm), True)
+                    continue
+                angle = [0.7, 0.3] if cname == 'euler' else 0.7
+                d = np.asarray(g.det_to_src(angle, [0.25, -0.5]))
+                ax_rot = np.asarray(g.det_axes(angle))
+                ctx.fact('%s/%s/ray-direction-is-a-unit-vector' % (cname, nm), abs(np.linalg.norm(d) - 1) < 1e-12,
+                         'norm %r' % np.linalg.norm(d))
+                ctx.fact('%s/%s/ray-orthogonal-to-detector-axes' % (cname, nm),
+                         np.allclose(ax_rot.dot(d), 0, atol=1e-12), 'dots %s' % ax_rot.dot(d))
+                d2 = np.asarray(g.det_to_src(angle, [-0.75, 0.5]))
+                ctx.fact('%s/%s/same-direction-for-all-detector-points' % (cname, nm), np.allclose(d, d2))
+    finally:
+        proxy.STATE.armed = was
+
+
 def case(ctx, kind, geom, sl=None, vol=None, ratio=None):
     bump = 1 if ctx.canary else 0
+    if kind == 'entrywise-facts':
+        return _entrywise_facts(ctx)
+    if kind == 'skew-facts':
+        return _skew_facts(ctx)
     if kind == 'factory':
         return factory_case(ctx, geom, vol, ratio)
     if kind == 'detector':
